@@ -312,9 +312,19 @@ H_CHAIN = Harness(
         # quick: two levels, default protocol; level 2 empty
         "quick": {"fixed": {"g2": 0, "s2": 0, "r2": 0, "proto": 4, "gna": 0, "slots": 0}, "partition": ["marker", "g0", "g1"],
                   "timeout": 200, "twin_fixed": {"marker": 0, "g0": 1, "g1": 0}},
-        # thorough: three levels; getnewargs/slots; protocols 2 and 5
-        "thorough": {"ranges": {"proto": (2, 5)}, "partition": ["marker", "g0", "g1", "g2", "r0", "gna", "slots"], "timeout": 1500,
-                     "fixed": {}, "twin_fixed": {"marker": 0, "g0": 1, "g1": 0, "g2": 0, "r0": 0, "gna": 0, "slots": 0}},
+        # thorough: three levels, default protocol, no __getnewargs__/__slots__ (those are crossed with protocols in 'chainx')
+        "thorough": {"fixed": {"proto": 4, "gna": 0, "slots": 0}, "partition": ["marker", "g0", "g1", "g2"], "timeout": 1500,
+                     "twin_fixed": {"marker": 0, "g0": 1, "g1": 0, "g2": 0}},
+    },
+    functions=_FUNCS,
+)
+
+H_CHAINX = Harness(
+    "chainx", "vf.props.c13:h_chain", _chain_params,
+    tiers={
+        # thorough only: two levels x __getnewargs__ x __slots__ x protocols 2..5
+        "thorough": {"fixed": {"g2": 0, "s2": 0, "r2": 0}, "partition": ["marker", "g0", "g1", "gna", "slots"], "timeout": 1500,
+                     "twin_fixed": {"marker": 0, "g0": 1, "g1": 0, "gna": 1, "slots": 0}},
     },
     functions=_FUNCS,
 )
@@ -340,7 +350,7 @@ H_STDLIB = Harness(
 )
 
 SPEC = PropSpec(
-    "C13", [H_CHAIN, H_SHAPE, H_STDLIB],
+    "C13", [H_CHAIN, H_CHAINX, H_SHAPE, H_STDLIB],
     assumptions=[
         "class features (per level: __getstate__ kind, __setstate__, __reduce__/__reduce_ex__, __getnewargs__, __slots__, marker vs duck-typed) "
         "are chosen by symbolic integers; classes are built with type() after branching on them; the C pickler sees concrete objects",
